@@ -20,7 +20,7 @@ from ..common import outcome, strict_json, deep_equal, panic_sig
 
 PROP = "C07"
 DIRS = ["main", "lib1", "lib2"]
-SPELLINGS = ["plain", "dot", "updown", "symlink", "symlink2", "absolute"]
+SPELLINGS = ["plain", "dot", "updown", "symlink", "symlink2", "absolute", "dirlink"]
 
 
 class Layout:
@@ -53,6 +53,8 @@ class Layout:
             return "ln_" + name
         if spelling == "symlink2":
             return "ln2_" + name
+        if spelling == "dirlink":
+            return "dl/" + name       # dl -> . : a symlinked directory in the middle of the path
         d = self.resolve(from_dir, i)
         return self.path(d if d else from_dir, i)
 
@@ -69,6 +71,9 @@ class Layout:
     def write(self):
         for d in DIRS:
             os.makedirs(os.path.join(self.root, d, "sub"), exist_ok=True)
+            dl = os.path.join(self.root, d, "dl")
+            if not os.path.lexists(dl):
+                os.symlink(".", dl)
         for i in range(self.n):
             for d in self.where[i]:
                 p = self.path(d, i)
@@ -236,7 +241,8 @@ def check_case(acc, w, root, spec, seq):
     loads = {}
     for ev in log0:
         if ev[0] == "load" and ev[2] == "ok":
-            loads[ev[1]] = loads.get(ev[1], 0) + 1
+            cp = os.path.realpath(ev[1])      # canonical file, whatever spelling the resolver handed back
+            loads[cp] = loads.get(cp, 0) + 1
     for p, c in loads.items():
         if c > 1:
             bad("loaded-twice", {"path": p, "count": c, "log": log0})
@@ -326,8 +332,27 @@ def special_targets(acc, w, root):
         "import 'good.jsonnet'": {"good": True}, "[importstr 'good.jsonnet', importbin 'good.jsonnet'][0]": "{good: true}",
         "local a = import 'good.jsonnet', b = import './good.jsonnet'; [a, b]": [{"good": True}, {"good": True}],
         "import 'good.jsonnet' + 'x'": "error",
+        "import 'syntax.jsonnet'": "error", "importstr 'syntax.jsonnet'": "{ a: ", "(import 'wraps_syntax.jsonnet').x": "error",
+        "(import 'wraps_syntax.jsonnet').ok": 1.0, "(import 'wraps_bad.jsonnet').b": [255.0, 254.0, 123.0, 125.0, 128.0],
+        "(import 'wraps_bad.jsonnet').i": "error",
     }
-    for hist in (list(cases), list(reversed(list(cases)))):
+    with open(os.path.join(d, "syntax.jsonnet"), "w") as f:
+        f.write("{ a: ")
+    with open(os.path.join(d, "wraps_syntax.jsonnet"), "w") as f:
+        f.write("{ ok: 1, x: import 'syntax.jsonnet' }")
+    with open(os.path.join(d, "wraps_bad.jsonnet"), "w") as f:
+        f.write("{ b: importbin 'bad.bin', i: import 'bad.bin' }")
+    # the kind of error each failing target gives on a fresh state: a history must not change it
+    fresh_kind = {}
+    for code in cases:
+        main = os.path.join(d, "m%d.jsonnet" % (hash(code) % 100000))
+        with open(main, "w") as f:
+            f.write(code)
+        cls, pay = outcome(w.call({"op": "eval", "file": main}))
+        if cls == "err":
+            fresh_kind[code] = pay.get("kind")
+    fwd = list(cases)
+    for hist in (fwd, list(reversed(fwd)), fwd + fwd, list(reversed(fwd)) + fwd):
         sid = "special-%d" % len(hist)
         for i, code in enumerate(hist):
             main = os.path.join(d, "m%d.jsonnet" % (hash(code) % 100000))
@@ -342,6 +367,9 @@ def special_targets(acc, w, root):
             elif want == "error":
                 if cls != "err":
                     acc.violation({"oracle": "special-target", "expected": "error", "code": code}, {"code": code, "observed": pay})
+                elif fresh_kind.get(code) is not None and pay.get("kind") != fresh_kind[code]:
+                    acc.violation({"oracle": "error-depends-on-history", "code": code, "fresh": fresh_kind[code], "after_history": pay.get("kind")},
+                                  {"code": code, "observed": pay, "history": hist[:i]})
                 else:
                     acc.inc("special_errors")
                     acc.distinct("special:" + code)
@@ -416,7 +444,7 @@ def run(tier, seed, t0):
         PROP, tier, seed, "fault_enumeration", acc, t0,
         rule="all import graphs over 3 files (7 edge slots x {none, strict, lazy}, f0 importing at least one file) x "
              "2 (quick) / 12 (thorough) layouts over {importer dir, lib1, lib2} with shadowing copies, import kind "
-             "{import, importstr, importbin} and spelling {plain, ./, sub/../, symlink, symlink-to-symlink, absolute}; "
+             "{import, importstr, importbin} and spelling {plain, ./, sub/../, symlink, symlink-to-symlink, absolute, through a symlinked directory}; "
              "multi-spelling cases; for every case the fault-free run, a second evaluation on the same state, and one "
              "run per resolve and per load event of the fault-free log with that event failed, each followed on the "
              "same state by an unrelated import and a retry; special targets (missing, directory, non-UTF-8, empty); "
